@@ -248,6 +248,10 @@ func (s *nhRegularSM) RecoverFromSnapshot(r io.Reader, fs []sm.SnapshotFile, don
 func (s *nhRegularSM) Close() error {
 	s.enter("Close", nil)
 	s.jitter(500)
+	if s.c.slowUs > 0 {
+		// a slow Close: a query that is let in while Close runs would show up
+		time.Sleep(time.Duration(s.c.slowUs/2) * time.Microsecond)
+	}
 	s.exit("Close", nil)
 	return nil
 }
@@ -437,11 +441,20 @@ func (s *nhOnDiskSM) SaveSnapshot(ctx interface{}, w io.Writer, done <-chan stru
 }
 func (s *nhOnDiskSM) RecoverFromSnapshot(r io.Reader, done <-chan struct{}) error {
 	s.enter("RecoverFromSnapshot", nil)
+	// "RecoverFromSnapshot is not required to synchronize its recovered in-core state with that
+	// on disk" (statemachine/disk.go): the state becomes durable with the Sync that follows
 	idx, err := s.restore(r)
-	if err == nil {
-		err = s.persist()
-	}
 	s.exit("RecoverFromSnapshot", nhEv{"applied": idx})
+	if s.c.armOnRecover {
+		// power loss at one of the file-system operations that follow (Sync, Shrink, compaction)
+		cur := atomic.LoadInt64(&s.h.inj.count)
+		if atomic.LoadInt64(&s.h.inj.at) == 0 {
+			atomic.StoreInt32(&s.h.inj.fired, 0)
+			at := cur + 1 + int64(atomic.LoadUint32(&s.jit)%24)
+			atomic.StoreInt64(&s.h.inj.at, at)
+			s.c.rec.emit("Armed", nhEv{"h": s.h.id, "at": at, "applied": idx})
+		}
+	}
 	return err
 }
 func (s *nhOnDiskSM) Close() error {
